@@ -50,6 +50,7 @@ def bucket(x):
 
 def run(ctx):
     env = kit.Env(ctx)
+    kit.aliasing_probe(ctx, env.m, "C10")   # the program aliases what it is handed and updates in place
     m, rng = env.m, ctx.rng
     U, P = m.Unit._by_name, env.pools.prefixes
     for s in SCALES:
